@@ -87,6 +87,74 @@ func TestC05(t *testing.T) {
 			}
 			return out
 		}
+		// second twin: only one of the failed txs of each block is removed (a late failure if there is one). Every
+		// other tx - those that fail included - must behave exactly as it did with the failed tx in the block:
+		// "later transactions in the same block observe the unchanged state". (The first twin cannot see a failed
+		// tx that makes a later tx fail: it removes both.)
+		removed := make([]int, len(c.Results))
+		oneRemoved, laterFailedKept := 0, 0
+		for bi, ra := range c.Results {
+			removed[bi] = -1
+			var fl, late []int
+			for i, x := range ra.Txs {
+				if x.Code != 0 {
+					fl = append(fl, i)
+					if c.Outcomes[bi][i].Late {
+						late = append(late, i)
+					}
+				}
+			}
+			pickFrom := fl
+			if len(late) > 0 && sha([]byte{byte(bi), 7})[0]%4 != 0 {
+				pickFrom = late
+			}
+			if len(pickFrom) > 0 {
+				removed[bi] = pickFrom[int(sha([]byte{byte(bi), byte(len(ra.Txs))})[0])%len(pickFrom)]
+				oneRemoved++
+				for _, j := range fl {
+					if j > removed[bi] {
+						laterFailedKept++
+						break
+					}
+				}
+			}
+		}
+		sc, _, rerr2 := runReplica(c.Hist,
+			func(s *Sim, bi int, b *Block) *BlockHooks {
+				return &BlockHooks{SkipTx: func(i int) bool { return i == removed[bi] }}
+			},
+			func(s *Sim, bi int, b *Block, br *BlockResult) error {
+				ra := c.Results[bi]
+				for i := range ra.Txs {
+					if i == removed[bi] {
+						continue
+					}
+					x, y := ra.Txs[i], br.Txs[i]
+					if x.Code != y.Code || !bytes.Equal(x.Data, y.Data) || x.GasUsed != y.GasUsed || (x.Code != 0 && x.Log != y.Log) {
+						return violationf("height %d tx %d behaves differently once the failed tx %d of the block (code=%d log=%q) is removed: (code=%d data=%x gasUsed=%d log=%q) vs (code=%d data=%x gasUsed=%d log=%q)",
+							ra.Height, i, removed[bi], ra.Txs[removed[bi]].Code, ra.Txs[removed[bi]].Log, x.Code, x.Data, x.GasUsed, x.Log, y.Code, y.Data, y.GasUsed, y.Log)
+					}
+				}
+				d, perr := semanticDigest(s)
+				if perr != nil {
+					return perr
+				}
+				if df := diffLines(digests[bi], d); df != "" {
+					return violationf("height %d: committed state differs once the failed tx %d of the block is removed (A = with it):%s", ra.Height, removed[bi], df)
+				}
+				return nil
+			})
+		defer sc.Close(true)
+		if rerr2 != nil {
+			if v, ok := rerr2.(*ViolationError); ok {
+				out.Err = v
+			} else {
+				out.Err = violationf("replica without one failed tx per block failed: %v", rerr2)
+			}
+			return out
+		}
+		st.label("second_twin:blocks_with_one_failed_tx_removed", oneRemoved)
+		st.label("second_twin:removed_tx_followed_by_another_failing_tx", laterFailedKept)
 		st.label("failed_txs", failed)
 		st.label("late_failures", late)
 		st.label("late_failure_followed_by_success_same_block", lateThenTouch)
